@@ -151,7 +151,7 @@ def takeWhileC (p : Char → Bool) : List Char → List Char × List Char
   | [] => ([], [])
   | c :: cs => if p c then let (a, b) := takeWhileC p cs; (c :: a, b) else ([], c :: cs)
 
-def digitsToNat (ds : List Char) : Nat := ds.foldl (fun acc c => acc * 10 + (c.toNat - 48)) 0
+def digitsToNatE (ds : List Char) : Nat := ds.foldl (fun acc c => acc * 10 + (c.toNat - 48)) 0
 
 def parseSAttr : List Char → SAttr × List Char
   | '^' :: cs => (.clipped, cs)
@@ -177,7 +177,7 @@ def parseFactor : Nat → List Char → Option (Factor × List Char)
     | c :: r =>
       if c.isDigit then
         let (ds, r') := takeWhileC Char.isDigit (c :: r)
-        some (.t (digitsToNat ds), r')
+        some (.t (digitsToNatE ds), r')
       else if isNameStart c then
         let (nm, r') := takeWhileC isNameChar (c :: r)
         let (sa, r'') := parseSAttr r'
@@ -252,7 +252,7 @@ def parseSymN (s : String) : Option SymN :=
   match s.toList with
   | [] => none
   | c :: cs =>
-    if c.isDigit then (if cs.all Char.isDigit then some (.t (digitsToNat (c :: cs))) else none)
+    if c.isDigit then (if cs.all Char.isDigit then some (.t (digitsToNatE (c :: cs))) else none)
     else if isNameStart c then
       let (nm, r) := takeWhileC isNameChar (c :: cs)
       match parseSAttr r with
